@@ -213,7 +213,28 @@ func checkSpec(ctx *Ctx, id string) {
 			}
 			fam = append(fam, overflowSums(base, ".")...)
 			b2 := base + ".0"
-			fam = append(fam, joinerSwaps(r, b2+"-a.b", sample)...)
+			// a full-arity base with digit-free identifier lists that differ only in their joiners
+			// (a.b / a-b / a.b.c / a-b.c / a.b-c): one identifier "a-b" against the two "a", "b"
+			b3 := b2
+			if sh := numShapes[name]; sh != nil {
+				ar := sh.Arities[0]
+				for _, a := range sh.Arities {
+					if a == 3 {
+						ar = 3
+					}
+				}
+				parts := make([]string, ar)
+				for i := range parts {
+					parts[i] = r.Pick([]string{"1", "0", "2"})
+				}
+				b3 = sh.Prefix + strings.Join(parts, ".")
+			}
+			for _, j := range []string{"-", ".", "_", "~", "+"} {
+				for _, ids := range []string{"a.b", "a-b", "a.b.c", "a-b.c", "a.b-c", "a-b-c", "x.y", "x-y", "a.c1", "a-c1"} {
+					fam = append(fam, b3+j+ids)
+				}
+			}
+			fam = append(fam, joinerSwaps(r, b3+"-a.b", sample)...)
 			fam = append(fam, punctuationPairs(r, b2, sample)...)
 			fam = append(fam, punctuationPairs(r, b2+r.Pick([]string{"a", "rc", "b"}), sample)...)
 			extra = append(fam, extra...)
